@@ -1716,6 +1716,11 @@ fn parse_action_atom(ac_span: &Spanned<String>, s: &ParserState) -> Result<&'sta
             _ => return custom(CustomAction::ReverseReleaseOrder, &s.a),
         },
         "use-defsrc" => {
+            // Like the transparent action, use-defsrc looks up the key's own position,
+            // which a chordsv2 action (run at a virtual coordinate) does not have.
+            if s.pctx.trans_forbidden_reason.is_some() {
+                bail_span!(ac_span, "use-defsrc is forbidden within chordsv2");
+            }
             return Ok(s.a.sref(Action::Src));
         }
         _ => {}
